@@ -109,18 +109,26 @@ def expectBytes (n? : Option Nat) (v : JVal) : Expect String :=
 def expectAccessList (v : JVal) : Expect String :=
   match v with
   | .arr entries =>
-    let parts := entries.map fun e =>
+    -- (text, lenient): `lenient` when the entry's address is spelt with the doubled prefix that `ethaddr` lets through
+    -- (DESIGN 13.4 n3: the statement is silent, the value is the same address)
+    let parts : List (Option (String × Bool)) := entries.map fun e =>
       match e with
       | .arr [a, .arr slots] =>
-        match expectAddr a with
-        | .must addr =>
+        let addr? : Option (String × Bool) := match expectAddr a with
+          | .must addr => some (addr, false)
+          | .may addr => some (addr, true)
+          | _ => none
+        match addr? with
+        | some (addr, lenient) =>
           let ss := slots.map (expectBytes (some 32))
           if ss.all (fun x => match x with | .must _ => true | _ => false) then
-            some (":".intercalate (addr :: ss.map fun x => match x with | .must s => s | _ => ""))
+            some (":".intercalate (addr :: ss.map fun x => match x with | .must s => s | _ => ""), lenient)
           else none
-        | _ => none
+        | none => none
       | _ => none
-    if parts.all Option.isSome then .must (if parts.isEmpty then "-" else ",".intercalate (parts.map (·.getD "")))
+    if parts.all Option.isSome then
+      let text := if parts.isEmpty then "-" else ",".intercalate (parts.map fun p => (p.getD ("", false)).1)
+      if parts.any (fun p => (p.getD ("", false)).2) then .may text else .must text
     else .reject
   | _ => .reject
 
@@ -245,5 +253,36 @@ def judgeSignTx (d : Nat) (json : Bytes) (sigOnly allow : Bool) (resp : String) 
                     | some par => checkSig t.r t.s par
       | _ => .fails "signing an accepted transaction must succeed"
   | _ => expect (resp == "err") "transaction that does not parse must be refused"
+
+/-- `hash transaction [--signature TEXT]` (C15 interop, C06): without a signature the output is keccak256 of the signing
+payload; with a text denoting a signature (grammar of C15) it is keccak256 of the signed payload with exactly that
+(r, s, parity) — for every kind, the pre-EIP-155 legacy form included, since the command has no guard option.  A text that
+denotes no signature, or a document that is not a transaction, is an ordinary error. -/
+def judgeCliHashTx (json : Bytes) (sig : Option String) (resp : String) : Verdict :=
+  let sigDen : Option (Option (Nat × Nat × Nat)) := match sig with
+    | none => some none
+    | some text =>
+      let body := if text.startsWith "0x" then (text.drop 2).toString else text
+      if body.length == 130 then
+        match hexNat? (body.take 64).toString, hexNat? ((body.drop 64).take 64).toString, hexNat? (body.drop 128).toString with
+        | some r, some s, some v =>
+          if (v == 27 || v == 28) && 0 < r && r < secpN && 0 < s && s < secpN then some (some (r, s, v - 27)) else none
+        | _, _, _ => none
+      else none
+  match sigDen with
+  | none => expect (resp == "err") "a --signature text that does not denote a signature must be an ordinary error"
+  | some σ =>
+    match Hdw.Tx.parse json with
+    | .ok tx =>
+      let payload := match σ with
+        | none => Spec.Tx.signingPayload tx
+        | some (r, s, p) => Spec.Tx.signedPayload tx p r s
+      let vFits : Bool := match σ, tx with
+        | some (_, _, p), .legacy (some c) .. => decide (35 + 2 * c + p < 2 ^ 256)
+        | _, _ => true
+      if vFits then judgeCliDigest (Prim.keccak256 payload) resp
+      else expect (resp == "err") "v does not fit 256 bits: ordinary error"
+    | .err _ => expect (resp == "err") "not a transaction document: ordinary error"
+    | .panic _ => .skip
 
 end Hdw.Driver.Judge
